@@ -13,6 +13,18 @@ ENT_SIM = {"quick": [dict(module="MC_Ent.tla", cfg="MC_Ent_sim.cfg", num=40, dep
            "thorough": [dict(module="MC_Ent.tla", cfg="MC_Ent_sim.cfg", num=600, depth=160, procs=12)]}
 
 
+REG_MC = {"quick": [dict(module="MC_Reg.tla", cfg="MC_Reg_quick.cfg", workers=16, timeout=600)],
+          "thorough": [dict(module="MC_Reg.tla", cfg="MC_Reg_full.cfg", workers=16, timeout=3000)]}
+REG_SIM = {"quick": [dict(module="MC_Reg.tla", cfg="MC_Reg_sim.cfg", num=40, depth=150, procs=4)],
+           "thorough": [dict(module="MC_Reg.tla", cfg="MC_Reg_sim.cfg", num=600, depth=200, procs=12)]}
+STR_MC = {"quick": [dict(module="MC_Str.tla", cfg="MC_Str_quick.cfg", workers=16, timeout=600)],
+          "thorough": [dict(module="MC_Str.tla", cfg="MC_Str_full.cfg", workers=16, timeout=3000)]}
+STR_SIM = {"quick": [dict(module="MC_Str.tla", cfg="MC_Str_sim.cfg", num=40, depth=150, procs=4)],
+           "thorough": [dict(module="MC_Str.tla", cfg="MC_Str_sim.cfg", num=600, depth=200, procs=12)]}
+STR_SWEEP = {"quick": [dict(module="MC_Str.tla", cfg="MC_Str_sweep.cfg")], "thorough": [dict(module="MC_Str.tla", cfg="MC_Str_sweep.cfg")]}
+REG_SWEEP = {"quick": [dict(module="MC_Reg.tla", cfg="MC_Reg_sweep.cfg")], "thorough": [dict(module="MC_Reg.tla", cfg="MC_Reg_sweep.cfg")]}
+
+
 def rnd(profile, quick, thorough):
     return {"quick": [dict(profile=profile, steps=quick[0], runs=quick[1])],
             "thorough": [dict(profile=profile, steps=thorough[0], runs=thorough[1])]}
@@ -24,6 +36,18 @@ PLANS = {
                 assumptions=COMMON_ASSUME),
     "C04": dict(mc=ENT_MC, sim=ENT_SIM, random=rnd("ent", (300, 3), (2000, 20)),
                 rule="as C03; view = locked/spent books, totals, escrow balance, registered module invariant", assumptions=COMMON_ASSUME),
+    "C07": dict(mc=REG_MC, sim=REG_SIM, sweep=REG_SWEEP, random=rnd("reg", (300, 3), (2000, 20)),
+                rule="TLC exhaustive on MC_Reg (registrations, records at lower/equal/next/gapped/huge heights by owners and strangers, purchases incl. Exec-wrapped and huge, gov limit changes); TLC-simulated + seeded random schedules executed on the real app; every record ever accepted is re-queried after every step", assumptions=COMMON_ASSUME),
+    "C08": dict(mc=REG_MC, sim=REG_SIM, sweep=REG_SWEEP, random=rnd("reg", (300, 3), (2000, 20)),
+                rule="as C07; view = counters, limits, reported storage, in-state key sets (point queries and store iteration)", assumptions=COMMON_ASSUME),
+    "C09": dict(mc=REG_MC, sim=REG_SIM, sweep=REG_SWEEP, random=rnd("reg", (300, 3), (2000, 20)),
+                rule="as C07; view = ids, metadata of every registration ever made, owner-only writes", assumptions=COMMON_ASSUME),
+    "C10": dict(mc=STR_MC, sim=STR_SIM, sweep=STR_SWEEP, random=rnd("str", (300, 3), (2000, 20)),
+                rule="TLC exhaustive on MC_Str (create/claim/top-up/rate change/cancel, two denominations, time advances 0/sub-second/seconds/beyond zero time, gov fee changes, sends to escrow); schedules executed on the real app; escrow balance, every stream, balances of all parties and the registered module invariant compared after every step", assumptions=COMMON_ASSUME),
+    "C11": dict(mc=STR_MC, sim=STR_SIM, sweep=STR_SWEEP, random=rnd("str", (300, 3), (2000, 20)),
+                rule="as C10; view = deposit, last release time, deposit-zero time of every stream, claim responses; monitor Sustained", assumptions=COMMON_ASSUME),
+    "C12": dict(mc=STR_MC, sim=STR_SIM, sweep=STR_SWEEP, random=rnd("str", (300, 3), (2000, 20)),
+                rule="as C10; monitors: a stream operation the specification accepts is not refused by the code, and no stream transaction panics", assumptions=COMMON_ASSUME),
 }
 
 HOOK_COMMITS = []
